@@ -23,6 +23,8 @@ pub enum ReqSel {
     StrangerPublic(u8),
     /// a stranger on the loopback interface
     StrangerLoopback(u8),
+    /// an IPv6 stranger at ::1 or at an address with 96 leading zero bits (::a.b.c.d)
+    StrangerV6Low(u8),
 }
 
 #[derive(Clone, Debug, PartialEq, Eq, Hash, Serialize, Deserialize)]
@@ -336,10 +338,15 @@ async fn run(case: &Case, rep: &mut CaseReport) -> Option<(String, String)> {
                 }
                 ReqSel::StrangerV6(x) if case.dual => (svc_addr6(900 + x as u32), keys::id_of(900 + x as u32), None),
                 ReqSel::StrangerPublic(x) => (SocketAddr::new(std::net::IpAddr::V4(std::net::Ipv4Addr::new(198, 51, 100, 7 + x)), 30303 + x as u16), keys::id_of(900 + x as u32), None),
+                ReqSel::StrangerV6Low(x) if case.dual => (
+                    SocketAddr::new(std::net::IpAddr::V6(if x % 2 == 0 { std::net::Ipv6Addr::LOCALHOST } else { std::net::Ipv6Addr::new(0, 0, 0, 0, 0, 0, 0x0a03, x as u16 + 1) }), 9200 + x as u16),
+                    keys::id_of(900 + x as u32),
+                    None,
+                ),
                 ReqSel::StrangerLoopback(x) => (SocketAddr::new(std::net::IpAddr::V4(std::net::Ipv4Addr::LOCALHOST), 9100 + x as u16), keys::id_of(900 + x as u32), None),
-                ReqSel::Stored(_) | ReqSel::Stranger(_) | ReqSel::StrangerV6(_) => {
+                ReqSel::Stored(_) | ReqSel::Stranger(_) | ReqSel::StrangerV6(_) | ReqSel::StrangerV6Low(_) => {
                     let x = match sel {
-                        ReqSel::Stranger(x) | ReqSel::StrangerV6(x) => x as u32,
+                        ReqSel::Stranger(x) | ReqSel::StrangerV6(x) | ReqSel::StrangerV6Low(x) => x as u32,
                         _ => 0,
                     };
                     (svc_addr4(900 + x), keys::id_of(900 + x), None)
@@ -542,7 +549,7 @@ fn ds_strategy() -> BoxedStrategy<Vec<u64>> {
 }
 
 fn req_strategy() -> BoxedStrategy<ReqSel> {
-    prop_oneof![3 => any::<u16>().prop_map(ReqSel::Stored), 2 => (0u8..4).prop_map(ReqSel::Stranger), 1 => (0u8..4).prop_map(ReqSel::StrangerV6), 1 => (0u8..4).prop_map(ReqSel::StrangerPublic), 1 => (0u8..4).prop_map(ReqSel::StrangerLoopback)].boxed()
+    prop_oneof![3 => any::<u16>().prop_map(ReqSel::Stored), 2 => (0u8..4).prop_map(ReqSel::Stranger), 1 => (0u8..4).prop_map(ReqSel::StrangerV6), 1 => (0u8..4).prop_map(ReqSel::StrangerPublic), 1 => (0u8..4).prop_map(ReqSel::StrangerLoopback), 1 => (0u8..4).prop_map(ReqSel::StrangerV6Low)].boxed()
 }
 
 impl Property for C14 {
